@@ -16,6 +16,21 @@ BASE_TRUSTED = [
 ]
 
 
+def clause_id(oid):
+    """stable id of the contract clause an obligation belongs to (path / call ordinals / line numbers removed)"""
+    oid = re.sub(r"\.path\d+(@\S+)?$", "", oid)
+    oid = re.sub(r"\.call\d+@[^.]+\.", ".call.", oid)
+    oid = re.sub(r"@\d+", "", oid)
+    return oid
+
+
+def load_baseline(pid):
+    p = os.path.join(ROOT, "baseline", f"{pid}.json")
+    if not os.path.exists(p):
+        return None
+    return set(json.load(open(p))["proved_clauses"])
+
+
 def known_findings():
     p = os.path.join(ROOT, "known_findings.json")
     if not os.path.exists(p):
@@ -23,7 +38,7 @@ def known_findings():
     return json.load(open(p)).get("findings", [])
 
 
-def run_property(pid, tier, jobs, verbose=False):
+def run_property(pid, tier, jobs, verbose=False, record_baseline=False):
     t0 = time.time()
     seed = int(os.environ.get("VERIF_SEED", "0") or 0)
     from pyvc import cli
@@ -92,6 +107,34 @@ def run_property(pid, tier, jobs, verbose=False):
             errors.append((o["id"], o.get("detail", "")))
         else:
             undecided.append(o)
+    # an obligation that was discharged on the unchanged tree (committed baseline) and is no longer discharged is
+    # reported as a violation without a failing input (DESIGN §2.5); anything else undischarged is *undecided*
+    baseline = load_baseline(pid)
+    regressed = []
+    if baseline is not None:
+        still = []
+        for o in undecided:
+            if clause_id(o["id"]) in baseline:
+                hit = None
+                for f in kf:
+                    if f.get("status") == "known" and re.search(f["obligation"], o["id"]):
+                        hit = f
+                        break
+                if hit:
+                    known_hits.append((o, hit))
+                else:
+                    regressed.append(o)
+            else:
+                still.append(o)
+        undecided = still
+    if record_baseline:
+        os.makedirs(os.path.join(ROOT, "baseline"), exist_ok=True)
+        by_clause = {}
+        for o in obs:
+            by_clause.setdefault(clause_id(o["id"]), []).append(o["status"])
+        proved = sorted(c for c, sts in by_clause.items() if all(x == "proved" for x in sts))
+        json.dump({"property": pid, "proved_clauses": proved}, open(os.path.join(ROOT, "baseline", f"{pid}.json"), "w"), indent=1)
+        print(f"baseline recorded: {len(proved)} clauses")
     discharged = sum(1 for o in obs if o["status"] == "proved")
     # ---- replay files + verdict lines
     rc = 0
@@ -100,6 +143,10 @@ def run_property(pid, tier, jobs, verbose=False):
         if hit["what"] not in printed_known:
             print(f"KNOWN-FINDING: property={pid} {hit['what']}")
             printed_known.add(hit["what"])
+    for o in regressed:
+        o = dict(o)
+        o["detail"] = (o.get("detail", "") + " | discharged on the unchanged tree (baseline), not discharged now: " + o["backend"]).strip()
+        violations.append((o, None))
     if violations:
         from pyvc import replay
         seen_files = set()
